@@ -172,9 +172,9 @@ PROPS = {
         "assumptions": COMMON_ASSUME,
     },
     "C02": {
-        "level_text": "Partial. Proved for unbounded sizes: C02_coop_limits / C02_progress_create / C02_progress_delete (under the cooperative assumption a sync creates at least one pod while a node lacks one and may replace at least one outdated pod once every node has one), the abstract cooperative round with the variant 2*outdated + empty: C02_round_measure (strictly decreasing for maxUnavailable >= 1 and a creation cap >= 1), C02_rounds_bound (fixpoint after at most 2*outdated + empty <= 2N rounds), C02_abs_fixpoint, and the fixpoint of the real plan: C02_fixpoint (every targeted node up to date => a sync creates and deletes nothing). NOT a theorem: the composition across the two controllers and through canary histories (C02_converges). It is validated by the scenario stream: the four real reconcilers plus a kubelet model run random histories (template changes incl. several in a row, pause/freeze/canary commands, node churn and tainting, pod restarts/failures, neighbours in other namespaces) with every reconcile step compared with the L2 models, then cooperative rounds to quiescence; Spec.C02.fixpoint (one Ready live-template pod per eligible node, no other daemon pod, live template active) and the round bound are evaluated on the final store.",
+        "level_text": "Partial. Proved for unbounded sizes: C02_coop_limits / C02_progress_create / C02_progress_delete (under the cooperative assumption a sync creates at least one pod while a node lacks one and may replace at least one outdated pod once every node has one), C02_budget_positive (a positive maxUnavailable, number or percentage, resolves to >= 1 on any non-empty node set: percentages round up) and C02_progress_plan (in the cooperative update situation the real plan deletes min(maxUnavailable, outdated) >= 1 pods; the same premise is evaluated on every real ManageDeployment call of the manage_deployment stream as clause C02.progress-update), the abstract cooperative round with the variant 2*outdated + empty: C02_round_measure (strictly decreasing for maxUnavailable >= 1 and a creation cap >= 1), C02_rounds_bound (fixpoint after at most 2*outdated + empty <= 2N rounds), C02_abs_fixpoint, and the fixpoint of the real plan: C02_fixpoint (every targeted node up to date => a sync creates and deletes nothing). NOT a theorem: the composition across the two controllers and through canary histories (C02_converges). It is validated by the scenario stream: the four real reconcilers plus a kubelet model run random histories (template changes incl. several in a row, pause/freeze/canary commands, node churn and tainting, pod restarts/failures, neighbours in other namespaces) with every reconcile step compared with the L2 models, then cooperative rounds to quiescence; Spec.C02.fixpoint (one Ready live-template pod per eligible node, no other daemon pod, live template active) and the round bound are evaluated on the final store.",
         "level_note": TB + "The cooperative round assumes real kubelet timing and work-queue fairness (every reconciler runs, created pods get scheduled and Ready, terminations finish, the clock advances by more than reconcileFrequency and the slow-start interval). Configurations where the EDS reconcile keeps reporting an error (a canary asking for more nodes than are eligible: C15) hold the rollout by specification and are counted, not judged.",
-        "streams": [("scenario", 40, 1500)],
+        "streams": [("manage_deployment", 1500, 30000), ("scenario", 40, 1500)],
         "partial": ["C02_converges (composition of the per-sync lemmas across EDS/ERS reconciles, kubelet and canary phases) is not proved; scenario-level evidence only"],
         "trusted_base": ["simulated API server + kubelet (harness/streams/sim.go): creation timestamps/UIDs on create, graceful deletion via a kubelet finalizer, clock by aging every stored timestamp, fake clock for the failed-pod back-off"],
         "assumptions": COMMON_ASSUME + ["cooperative scheduling of reconcilers and kubelet (fairness)"],
